@@ -395,6 +395,8 @@ impl<'a> Interpreter<'a> {
                             CelValue::Dyn(d) => {
                                 stack.push_val(d.access(ident.as_str()));
                             }
+                            // a field of a failed value is that failure, not an absent field
+                            CelValue::Err(_) if !is_call => stack.push_val(obj),
                             _ => {
                                 if let Some(bindings) = self.bindings {
                                     if is_call
